@@ -6,8 +6,11 @@ import (
 	"math/rand"
 	"net"
 	"reflect"
+	"runtime"
 	"strconv"
 	"strings"
+	"sync"
+	"sync/atomic"
 	"time"
 
 	"github.com/hashicorp/go-msgpack/v2/codec"
@@ -223,7 +226,6 @@ func c25Exec(ops []string) []string {
 				continue
 			}
 			st := agent.VerifNewEventStream(agent.NewVerifRecorder(false), string(fl), 5)
-			st.Stop()
 			res := "ok"
 			func() {
 				defer func() {
@@ -231,9 +233,22 @@ func c25Exec(ops []string) []string {
 						res = "panicked"
 					}
 				}()
+				st.Stop()
+				st.Stop()
 				st.HandleEvent(e)
+				if st.BufLen() != 0 {
+					res = "sent"
+				}
 			}()
 			outs = append(outs, res)
+		case len(f) == 3 && f[0] == "esstress":
+			fl := unhex(f[1])
+			n, err := strconv.Atoi(f[2])
+			if fl == nil || err != nil {
+				outs = append(outs, "bad-op")
+				continue
+			}
+			outs = append(outs, c25Stress(string(fl), n))
 		case len(f) == 4 && f[0] == "qs":
 			seq, e1 := strconv.ParseUint(f[1], 10, 64)
 			ms, e2 := strconv.Atoi(f[3])
@@ -311,6 +326,66 @@ func c25Exec(ops []string) []string {
 		}
 	}
 	return outs
+}
+
+// c25Stress: HandleEvent from four goroutines (as the agent's eventLoop may, on a handler list
+// copied before the stream was deregistered) while Stop runs twice.  A gated client keeps the
+// buffer from draining, so anything entering the channel after Stop returned is visible.
+func c25Stress(filter string, n int) string {
+	rec := agent.NewVerifRecorder(true)
+	st := agent.VerifNewEventStream(rec, filter, 9)
+	defer rec.Release(100000)
+	var wg sync.WaitGroup
+	var panics atomic.Int64
+	start := make(chan struct{})
+	stopped := make(chan struct{})
+	var lenAtStop atomic.Int64
+	for g := 0; g < 4; g++ {
+		wg.Add(1)
+		go func(g int) {
+			defer wg.Done()
+			defer func() {
+				if r := recover(); r != nil {
+					panics.Add(1)
+				}
+			}()
+			<-start
+			for i := 0; i < n; i++ {
+				st.HandleEvent(c25Event("user", "a", uint64(g*n+i+1)))
+			}
+		}(g)
+	}
+	wg.Add(1)
+	go func() {
+		defer wg.Done()
+		defer func() {
+			if r := recover(); r != nil {
+				panics.Add(1)
+			}
+		}()
+		<-start
+		for i := 0; i < n/3; i++ {
+			runtime.Gosched()
+		}
+		st.Stop()
+		lenAtStop.Store(int64(st.BufLen()))
+		st.Stop()
+		close(stopped)
+	}()
+	close(start)
+	wg.Wait()
+	select {
+	case <-stopped:
+	default:
+	}
+	if panics.Load() > 0 {
+		return "panicked"
+	}
+	// the consumer is parked in Send (gated) or idle: the buffer can only have grown by sends after Stop
+	if int64(st.BufLen()) > lenAtStop.Load() {
+		return "sent-after-stop"
+	}
+	return "ok"
 }
 
 // ---------------------------------------------------------------- end to end over the socket
@@ -616,9 +691,17 @@ func c25Gen(rng *rand.Rand, tier string) []Case {
 		ops = append(ops, "rel 5", fmt.Sprintf("ev user %s %d", hexs("a"), n+1), "stop")
 		out = append(out, Case{ID: fmt.Sprintf("over%d", i), Ops: ops, Nontrivial: true, Tags: []string{"event-overflow"}})
 	}
-	// the order Stop(); HandleEvent() that the agent's eventLoop can produce (recorded finding when the event matches)
+	// Stop(); Stop(); HandleEvent() — the order the agent's eventLoop can produce — and HandleEvent racing Stop
 	out = append(out, Case{ID: "stop-then-event", Ops: []string{"esrace " + hexs("*") + " user " + hexs("deploy"), "esrace " + hexs("user:a") + " user " + hexs("b"),
-		"esrace " + hexs("member-join") + " member-join -"}, Nontrivial: true, Tags: []string{"finding"}})
+		"esrace " + hexs("member-join") + " member-join -", "esrace " + hexs("query") + " query " + hexs("q1")}, Nontrivial: true, Tags: []string{"stop-race"}})
+	nStress := 12
+	if tier == "thorough" {
+		nStress = 300
+	}
+	for i := 0; i < nStress; i++ {
+		out = append(out, Case{ID: fmt.Sprintf("stress%d", i), Ops: []string{fmt.Sprintf("esstress %s %d", hexs([]string{"*", "user", "user:a"}[rng.Intn(3)]), 20+rng.Intn(200))},
+			Nontrivial: true, Tags: []string{"stop-race"}})
+	}
 	// query stream over a hand-fed QueryResponse: deliveries, close and deadline race freely
 	for i := 0; i < nQ; i++ {
 		ack := rng.Intn(3) != 0
